@@ -651,6 +651,32 @@ func report(rc *runCfg, pl *plan, m *merged) int {
 	findings := loadFindings()
 	nViol := 0
 	known := map[string]int{}
+	// interleave violations of different stages so that the first replay files written cover
+	// every stage that found something
+	rank := map[string]int{}
+	type rv struct {
+		r int
+		v taggedViolation
+	}
+	var rvs []rv
+	for _, v := range m.violations {
+		k := v.Config + "/" + v.Mode
+		rvs = append(rvs, rv{rank[k], v})
+		rank[k]++
+	}
+	sort.SliceStable(rvs, func(i, j int) bool { return rvs[i].r < rvs[j].r })
+	byStage := map[string]int{}
+	for i := range rvs {
+		m.violations[i] = rvs[i].v
+	}
+	for _, v := range m.violations {
+		if matchFinding(findings, rc.prop, v.Violation) == nil {
+			byStage[v.Config+"/"+v.Mode]++
+		}
+	}
+	if len(byStage) > 1 {
+		fmt.Printf("violations by stage: %v\n", byStage)
+	}
 	for _, v := range m.violations {
 		if f := matchFinding(findings, rc.prop, v.Violation); f != nil {
 			known[f.text]++
